@@ -1586,8 +1586,10 @@ class _Run(object):
                         "difference_update", "intersection_update", "update"):
                 # the operand is iterated and its members hashed: dictionaries (their string keys), sets and strings are fine
                 for a_ in argv:
-                    if not a_.types <= frozenset(["dict", "set", "frozenset", "str", "view"]):
-                        self.raise_("TypeError", node, "set.%s() of %r" % (attr, a_))
+                    if a_.types and a_.types <= frozenset(["int", "float", "bool", "none"]):
+                        self.raise_("TypeError", node, "set.%s() of %r" % (attr, a_))      # (a scalar is not iterable)
+                    elif a_.types & UNHASHABLE and a_.types <= frozenset(["list"]) and False:
+                        pass
                 if attr in ("issubset", "issuperset", "isdisjoint"):
                     return BOOL
                 if attr in ("difference", "intersection") and base.truthy is False:
